@@ -951,18 +951,6 @@ impl TextPane for Buffer {
                             return found_char;
                         }
                     }
-                    if !cur_layer.properties.has_alpha_channel {
-                        let mut res = merge(AttributedChar::default().with_font_page(default_font_page), ch_opt, attr_opt);
-                        if attr_opt.is_some() {
-                            // nothing beneath an opaque layer is seen: a transparent colour of the override shows a blank cell
-                            // (a transparent cell remembered from a layer above is kept, it is filled from `res`)
-                            res = self.make_solid_color(res, AttributedChar::default());
-                        }
-                        if let Some(transparent_char) = transparent_char {
-                            return self.make_solid_color(transparent_char, res);
-                        }
-                        return res;
-                    }
                 }
                 crate::Mode::Chars => {
                     // layers are looked at topmost first: the first override found is the one that is shown
@@ -975,6 +963,19 @@ impl TextPane for Buffer {
                         attr_opt = Some(ch.attribute);
                     }
                 }
+            }
+            // an opaque layer of any mode hides what lies beneath it, also where it has no cell
+            if !cur_layer.properties.has_alpha_channel {
+                let mut res = merge(AttributedChar::default().with_font_page(default_font_page), ch_opt, attr_opt);
+                if attr_opt.is_some() {
+                    // nothing beneath an opaque layer is seen: a transparent colour of the override shows a blank cell
+                    // (a transparent cell remembered from a layer above is kept, it is filled from `res`)
+                    res = self.make_solid_color(res, AttributedChar::default());
+                }
+                if let Some(transparent_char) = transparent_char {
+                    return self.make_solid_color(transparent_char, res);
+                }
+                return res;
             }
         }
 
